@@ -26,22 +26,29 @@ MANIFEST = dict(
           "smooth / strong-convexity declarations of 52 objects (24 benchmark sources, 5 elastic-net losses, 11 loss kernels + "
           "pinball, 5 constraint families, 6 ML objectives) and the matrix whose eigenvalues nano::convex(P) / strong_convexity(P) "
           "inspect are re-parsed from the working tree on every run into a Coq table; "
-          "every theorem carries the declaration it justifies, so a changed flag breaks the proof side. The exact-rational instance "
+          "every theorem carries the declaration it justifies, so a changed flag breaks the proof side. Q2R is proved to be a homomorphism of the scalar "
+          "structure (order embedding), hence Q2R (obj Qops q) = obj Rops (map Q2R q) for every loss kernel, error rule, algebraic "
+          "benchmark function and constraint of the shared model (C06_model_transfer): the theorems over R apply verbatim to the "
+          "extracted instance on the doubles the driver sees. The exact-rational instance "
           "of the same definitions is extracted and compared with the library on the doubles it saw (1e-9 of the summed "
           "magnitudes; 0-1 errors and sizes exactly); independent C++ oracles (central differences along random and coordinate "
           "directions, one-sided quotients at kinks, value-only == value+gradient, convexity inequality with hill-climbing on the "
           "violation, batch == one-by-one, decision rules) run on all 48 prototypes, 17 losses, 11 constraint kinds (incl. "
           "non-symmetric quadratic forms) and the linear / gboost / surrogate objectives over random datasets and produce the "
-          "concrete failing input."),
-    note=("Coq kernel + standard real-number axioms + Coquelicot; regular-expression flag parser and translator (6 size kernels + the 4 branch tests of chained_cb3I/II) in "
+          "concrete failing input. Transcendental objects (logistic, exponential, cauchy, savage, tangent, class-NLL losses; exponential "
+          "and cauchy functions): per-run kernel-checked interval enclosures of the transcendental specs at sampled points "
+          "(|spec(exact dyadic inputs) - returned double| <= 1e-11 * (1 + sum |terms|), one CoqInterval lemma per number, ~190 quick / "
+          "~2000 thorough) -- validation at sampled points, not the unbounded claim."),
+    note=("Coq kernel + standard real-number axioms + Coquelicot + CoqInterval (per-run lemmas, Qed-checked); regular-expression flag parser and translator (6 size kernels + the 4 branch tests of chained_cb3I/II) in "
           "tools/; extraction (ExtrOcamlBasic, exact Q); harness against the library built from the working tree + OCaml driver; "
           "floating-point rounding is outside the theorems (compared within 1e-9 / searched with tolerances); objects without a "
           "convexity theorem (class-NLL, trid, rotated ellipsoid, maxq, quadratic, geometric, maxquad, maxhilb, kinks, elastic "
           "net, coordinate / quadratic / functional constraints, all ML objectives) are searched only; directed probes (exact cb3 "
           "ties, non-symmetric P) guard the fixes 114b02b / 3feb922; one known finding (linear strong convexity ignores the "
           "unregularised bias, notes/C06.md)."),
-    technique="Coq proof over R of a model shared with its extracted exact-rational instance, source-parsed declaration table, "
-              "differential correspondence, direct property oracles on the implementation",
+    technique="Coq proof over R of a model shared with its extracted exact-rational instance (proved Q->R transfer), source-parsed "
+              "declaration table, differential correspondence, per-run kernel-checked interval enclosures of the transcendental specs "
+              "at sampled points (validation at sampled points, not the unbounded claim), direct property oracles on the implementation",
     design="DESIGN.md section 2, C06")
 
 VARIANTS = ["rel"]
@@ -176,6 +183,252 @@ def coq_side():
         cres["broken"] = "flag-parser:" + err
     cres["flags"] = flags
     return cres
+
+
+# ------------------------------------------------------------------------------------------------
+# style D: per-run interval enclosures of the transcendental specifications at sampled points
+# ------------------------------------------------------------------------------------------------
+IV_LOSSES = {"cauchy": "cauchy", "s-logistic": "logistic", "m-logistic": "logistic", "s-exponential": "exponential",
+             "m-exponential": "exponential", "s-savage": "savage", "m-savage": "savage", "s-tangent": "tangent", "m-tangent": "tangent",
+             "s-classnll": "classnll"}
+IV_FNS = {"exponential": ("fexp_v", "fexp_g"), "cauchy": ("fcauchy_v", "fcauchy_g")}
+IV_REL = "1e-11"       # tol = IV_REL * (1 + sum of |terms|)
+IV_HEADER = """(* GENERATED by tools/checks/c06.py on every run from the values the library returned (VERIF_SEED = %d, tier %s) -- do not edit.
+   One lemma per number: |real-analytic specification (C06_Defs.v) at the exact dyadic inputs - double returned by the library|
+   <= 1e-11 * (1 + sum of |terms|), closed by CoqInterval and re-checked by the kernel at Qed.
+   Validation at sampled points, not the unbounded claim. *)
+From Coq Require Import Reals List Lra.
+From Interval Require Import Tactic.
+From LN Require Import C06_Defs.
+Import ListNotations.
+Local Open Scope R_scope.
+
+Lemma iv_ltb_pos : forall a, 0 < a -> Rltb 0 a = true.
+Proof. intros a H. unfold Rltb. destruct (Rlt_dec 0 a); [reflexivity | contradiction]. Qed.
+Lemma iv_ltb_neg : forall a, a <= 0 -> Rltb 0 a = false.
+Proof. intros a H. unfold Rltb. destruct (Rlt_dec 0 a); [lra | reflexivity]. Qed.
+Lemma iv_code : forall eps t o m, listmax o = m -> classnll_code eps t o = ln (eps + sumexp m o) - posum t o + m.
+Proof. intros eps t o m <-. reflexivity. Qed.
+Lemma iv_grad : forall t o m, listmax o = m -> classnll_g t o = classnll_g_from m (sumexp m o) t o.
+Proof. intros t o m <-. reflexivity. Qed.
+
+(* the largest output is the literal m: innermost Rmax first, each decided by lra on two literals *)
+Ltac iv_max :=
+  unfold listmax; cbn [fold_right];
+  repeat match goal with |- context [Rmax ?a ?b] =>
+    lazymatch a with context [Rmax _ _] => fail | _ =>
+    lazymatch b with context [Rmax _ _] => fail | _ => first [rewrite (Rmax_left a b) by lra | rewrite (Rmax_right a b) by lra] end end end;
+  reflexivity.
+Ltac iv_signs :=
+  repeat match goal with |- context [Rltb 0 ?a] => first [rewrite (iv_ltb_pos a) by lra | rewrite (iv_ltb_neg a) by lra] end.
+(* separable losses and the two benchmark functions *)
+Ltac iv :=
+  unfold loss_v, loss_g, kr_logistic_v, kr_logistic_g, kr_cauchy_v, kr_cauchy_g, kr_exponential_v, kr_exponential_g,
+         kr_savage_v, kr_savage_g, kr_tangent_v, kr_tangent_g, fexp_g, fcauchy_g;
+  unfold fexp_v, fcauchy_v, dot, vscale;
+  cbn [sum2 map2 map nth o_add o_mul o_zero Rops length INR];
+  interval with (i_prec 70).
+(* class-NLL as the code computes it (shift by the largest output m, epsilon inside the logarithm) *)
+Ltac iv_nll m :=
+  first [rewrite (iv_code _ _ _ m) by iv_max | rewrite (iv_grad _ _ m) by iv_max];
+  unfold sumexp, posum; cbn [fold_right classnll_g_from nth]; iv_signs;
+  interval with (i_prec 70).
+"""
+
+
+def _frac(h):
+    from fractions import Fraction
+    return Fraction(float.fromhex(h))
+
+
+def _rlit(q):
+    """exact rational as a Coq real literal"""
+    if q.denominator == 1:
+        return "(%d)" % q.numerator
+    return "(%d / %d)" % (q.numerator, q.denominator)
+
+
+def _dec_atan(x):
+    import decimal
+    D = decimal.Decimal
+    n = 0
+    while abs(x) > D("0.1"):          # atan x = 2 atan (x / (1 + sqrt(1 + x^2)))
+        x = x / (1 + (1 + x * x).sqrt())
+        n += 1
+    t, s, k, x2 = x, x, 1, x * x
+    while abs(t) > D(10) ** -60:
+        t = -t * x2
+        k += 2
+        s += t / k
+    return s * (2 ** n)
+
+
+def _iv_spec(kind, what, idx, t, o):
+    """high-precision value of the specification (measurement of the error ratio only; the check is the Coq lemma);
+    returns (value, sum of |terms|)"""
+    import decimal
+    from fractions import Fraction
+    D = decimal.Decimal
+    d = lambda q: D(q.numerator) / D(q.denominator)
+    t, o = [d(x) for x in t], [d(x) for x in o]
+    one = D(1)
+    if kind in ("fexp", "fcauchy"):
+        s2, n = sum(x * x for x in o), D(len(o))
+        if kind == "fexp":
+            f = (1 + s2 / n).exp()
+            return (f, abs(f)) if what == "v" else (2 * f / n * o[idx], abs(2 * f / n * o[idx]))
+        f = (1 + s2).ln()
+        return (f, abs(f)) if what == "v" else (2 / (1 + s2) * o[idx], abs(2 / (1 + s2) * o[idx]))
+    if kind == "classnll":
+        m = max(o)
+        S = sum((x - m).exp() for x in o)
+        pos = sum(x for a, x in zip(t, o) if a > 0)
+        if what == "v":
+            lg = (D(2) ** -52 + S).ln()
+            return lg - pos + m, abs(lg) + abs(pos) + abs(m)
+        g = (o[idx] - m).exp() / S - (1 if t[idx] > 0 else 0)
+        return g, abs(g) + 1
+    def kv(a, x):
+        if kind == "logistic":
+            return (1 + (-a * x).exp()).ln()
+        if kind == "exponential":
+            return (-a * x).exp()
+        if kind == "cauchy":
+            return ((a - x) * (a - x) + 1).ln() / 2
+        if kind == "savage":
+            return 1 / ((1 + (a * x).exp()) ** 2)
+        return (2 * _dec_atan(a * x) - 1) ** 2
+    def kg(a, x):
+        if kind == "logistic":
+            e = (-a * x).exp()
+            return -a * (e / (1 + e))
+        if kind == "exponential":
+            return -a * (-a * x).exp()
+        if kind == "cauchy":
+            return (x - a) / (1 + (x - a) * (x - a))
+        if kind == "savage":
+            return -2 * a / (((1 + (a * x).exp()) ** 2) * (1 + (-a * x).exp()))
+        return 4 * a * (2 * _dec_atan(a * x) - 1) / (1 + (a * x) * (a * x))
+    if what == "v":
+        terms = [kv(a, x) for a, x in zip(t, o)]
+        return sum(terms), sum(abs(x) for x in terms)
+    g = kg(t[idx], o[idx])
+    return g, abs(g)
+
+
+def iv_cases(lines, tier, seed):
+    """select the numbers to enclose; returns list of dict(name, line, what, idx, stmt, err, tol, ratio)"""
+    import decimal
+    import random
+    from fractions import Fraction
+    decimal.getcontext().prec = 60
+    rnd = random.Random(seed * 1000003 + 6)
+    quick = tier != "thorough"
+    per_id, cap = (8, 320) if quick else (70, 2200)
+    by = collections.defaultdict(list)
+    for l in lines:
+        if l.startswith("LV "):
+            i = l.split(" ", 2)[1]
+            if i in IV_LOSSES:
+                by["LV " + i].append(l)
+        elif l.startswith("FN "):
+            i = l.split(" ", 2)[1]
+            if i in IV_FNS:
+                by["FN " + i].append(l)
+    cases, skipped = [], collections.Counter()
+    for key in sorted(by):
+        ls = by[key]
+        rnd.shuffle(ls)
+        for l in ls[:per_id]:
+            lhs, rhs = l.split(" = ", 1)
+            lp, rp = lhs.split(" | "), rhs.split(" | ")
+            try:
+                if key.startswith("LV "):
+                    kind = IV_LOSSES[key[3:]]
+                    t, o = [_frac(x) for x in lp[1].split(",")], [_frac(x) for x in lp[2].split(",")]
+                    val, grad = _frac(rp[0]), [_frac(x) for x in rp[1].split(",")]
+                else:
+                    kind = "fexp" if key[3:] == "exponential" else "fcauchy"
+                    t, o = [], [_frac(x) for x in lp[1].split(",")]
+                    val, grad = _frac(rp[0]), [_frac(x) for x in rp[1].split(",")]
+            except (ValueError, OverflowError, IndexError):
+                skipped["non-finite"] += 1      # inf / nan cannot be converted: not a real number to enclose
+                continue
+            if len(grad) != len(o):
+                skipped["malformed"] += 1
+                continue
+            comps = list(range(len(o)))
+            if quick:
+                comps = [rnd.choice(comps)]
+            lt, lo = "[" + "; ".join(_rlit(x) for x in t) + "]", "[" + "; ".join(_rlit(x) for x in o) + "]"
+            for what, idx in [("v", 0)] + [("g", i) for i in comps]:
+                number = val if what == "v" else grad[idx]
+                if kind in ("fexp", "fcauchy"):
+                    fv, fg = IV_FNS[key[3:]]
+                    term = "%s %s" % (fv, lo) if what == "v" else "nth %d (%s %s) 0" % (idx, fg, lo)
+                elif kind == "classnll":
+                    term = ("classnll_code (1 / 4503599627370496) %s %s" % (lt, lo)) if what == "v" else \
+                           ("nth %d (classnll_g %s %s) 0" % (idx, lt, lo))
+                else:
+                    term = ("loss_v Rops kr_%s_v %s %s" % (kind, lt, lo)) if what == "v" else \
+                           ("nth %d (loss_g kr_%s_g %s %s) 0" % (idx, kind, lt, lo))
+                spec, mag = _iv_spec(kind, what, idx, t, o)
+                tol = decimal.Decimal(IV_REL) * (1 + mag)
+                tolq = Fraction(int(tol.scaleb(40).to_integral_value(rounding=decimal.ROUND_FLOOR)), 10 ** 40)
+                err = abs(spec - decimal.Decimal(number.numerator) / decimal.Decimal(number.denominator))
+                name = "iv_%04d" % len(cases)
+                cases.append({"name": name, "line": l, "what": "value" if what == "v" else "gradient[%d]" % idx, "object": key,
+                              "tac": ("iv_nll %s" % _rlit(max(o))) if kind == "classnll" else "iv",
+                              "stmt": "Rabs (%s - %s) <= %s" % (term, _rlit(number), _rlit(tolq)),
+                              "spec": str(spec)[:40], "err": float(err), "tol": float(tol), "ratio": float(err / tol)})
+                if len(cases) >= cap:
+                    return cases, skipped
+    return cases, skipped
+
+
+def iv_gate(r, cases, tier):
+    """write coq/generated/C06_interval_cases.v, compile it (kernel-checked); on failure find every failing lemma;
+    returns dict(lemmas, failed (list of case dicts), seconds, error)"""
+    import time
+    res = {"lemmas": len(cases), "failed": [], "seconds": 0.0, "error": None}
+    if not cases:
+        return res
+    gen = os.path.join(vlib.COQ, "generated")
+    os.makedirs(gen, exist_ok=True)
+    path = os.path.join(gen, "C06_interval_cases.v")
+    head = IV_HEADER % (r.seed, tier)
+    body = "".join("(* %s of %s *)\nLemma %s : %s.\nProof. %s. Qed.\n" % (c["what"], c["line"][:400].replace("*)", "* )"), c["name"], c["stmt"], c["tac"])
+                   for c in cases)
+    coqc = "timeout %d coqc -q -Q theories LN -Q generated LNGen -w -all %s"
+    # own lock (two C06 runs must not share the file); the shared "coq" lock is not needed: only C06_Defs.vo is read
+    with vlib.Lock("c06-interval"):
+        t0 = time.time()
+        open(path, "w").write(head + body)
+        rc, out = vlib.sh(coqc % (1500, "generated/C06_interval_cases.v"), cwd=vlib.COQ, timeout=1530)
+        if rc != 0:
+            # diagnosis pass: every lemma tried on its own, nothing is assumed
+            diag = os.path.join(vlib.WORK, "c06")
+            os.makedirs(diag, exist_ok=True)
+            dpath = os.path.join(diag, "C06_interval_diag_%d.v" % r.seed)
+            dbody = "".join("Goal %s.\nProof. first [ %s; idtac \"IV-OK %s\" | idtac \"IV-FAIL %s\" ]. Abort.\n" % (c["stmt"], c["tac"], c["name"], c["name"])
+                            for c in cases)
+            open(dpath, "w").write(head + dbody)
+            rc2, out2 = vlib.sh(coqc % (2400, shlex.quote(dpath)), cwd=vlib.COQ, timeout=2430)
+            bad = set(re.findall(r"IV-FAIL (iv_\d+)", out2))
+            res["failed"] = [c for c in cases if c["name"] in bad]
+            if not bad:
+                res["error"] = "interval file failed to compile but no single lemma fails: " + (out[-1500:] + out2[-1500:])
+            # keep the failing file for the replay, never leave it in generated/ (other builds compile that directory)
+            keep = os.path.join(diag, "C06_interval_cases_%d.v" % r.seed)
+            os.replace(path, keep)
+            res["kept"] = keep
+            for ext in (".vo", ".vok", ".vos", ".glob"):
+                try:
+                    os.remove(path[:-2] + ext)
+                except OSError:
+                    pass
+        res["seconds"] = round(time.time() - t0, 1)
+    return res
 
 
 def setup():
@@ -352,16 +605,46 @@ def run(tier, replay=None):
                          "meaning": "`<harness line> // model: <what the model computes>`; LV loss alpha | target | output = value | "
                                     "gradient | error; FN function n | x = f | gradient; CN kind n | parameters | x = f | gradient"},
                         no_input=not plain and p[1] == "SIZE")
+    # style D: kernel-checked interval enclosures of the transcendental specifications at sampled points of this run
+    iv = {"lemmas": 0, "failed": [], "seconds": 0.0, "error": None}
+    iv_list, iv_skipped = [], {}
+    if os.path.exists(os.path.join(vlib.COQ, "theories", "C06_Defs.vo")):
+        iv_list, iv_skipped = iv_cases(tie_lines, tier, r.seed)
+        iv = iv_gate(r, iv_list, tier)
+        for i, c in enumerate(iv["failed"][:4]):
+            r.violation("interval-%d" % i,
+                        {"kind": "the value returned by the library leaves the real-analytic specification (C06_Defs.v) by more than "
+                                 "1e-11 * (1 + sum of |terms|) on this input: the interval lemma does not check",
+                         "object": c["object"], "number": c["what"], "case": c["line"][:3000], "lemma": "Lemma %s : %s." % (c["name"], c["stmt"][:3000]),
+                         "specification_value": c["spec"], "abs_error": c["err"], "tolerance": c["tol"], "ratio": c["ratio"],
+                         "failed_lemmas": len(iv["failed"]),
+                         "replay_cmd": "cd %s && coqc -q -Q theories LN -Q generated LNGen -w -all %s" % (vlib.COQ, iv.get("kept", "generated/C06_interval_cases.v")),
+                         "meaning": "LV loss alpha | target | output = value | gradient | error; FN function n | x = f | gradient (C hex floats); "
+                                    "the lemma states |spec(inputs) - returned double| <= tol with exact rationals"})
+        if iv["error"]:
+            r.violation("interval-gate", {"kind": "interval file failed to compile", "detail": iv["error"][-3000:]}, no_input=True)
     vlib.handle_coq_failure(r, cres)
     vlib.proof_coverage(r, cres, "make -C coq theories/Properties_C06.vo && coqc theories/Properties_C06.v (Print Assumptions)",
                         ["tools/checks/c06.py: parser of the convex/smooth/strong_convexity declarations (regular expressions over "
                          "src/function/benchmark/*.cpp, elastic_net.h, flatten.h, pinball.cpp, constraint.cpp, linear/gboost/surrogate constructors)",
                          "tools/translate.py (6 size kernels, 4 branch tests of chained_cb3I/II)",
                          "extraction: ExtrOcamlBasic (exact Q on the inductive Z/positive)",
-                         "the hand-written formulas of C06_Defs.v (tied by the exact-rational correspondence on every run)",
+                         "the hand-written formulas of C06_Defs.v (tied by the exact-rational correspondence and, for exp/ln/atan objects, by "
+                         "the per-run interval lemmas)",
+                         "CoqInterval (tactic; its proofs are re-checked by the kernel at Qed); exact double -> rational conversion in c06.py",
                          "ocaml/c06_driver.ml (exact double->Q conversion, 1e-9 comparison), harness/c06_objects.cpp (tolerances of the direct "
                          "oracles), g++ -O2"])
     cov = r.coverage
+    cov["obligations"] += iv["lemmas"]
+    cov["discharged"] += iv["lemmas"] - len(iv["failed"]) if not iv["error"] else 0
+    cov["interval_lemmas"] = iv["lemmas"]
+    cov["interval_failed"] = len(iv["failed"])
+    cov["interval_seconds"] = iv["seconds"]
+    cov["interval_skipped"] = dict(iv_skipped)
+    cov["interval_worst_ratio"] = max([c["ratio"] for c in iv_list] or [0.0])
+    cov["interval_ratio_meaning"] = ("max over the sampled numbers of |specification (60-digit decimal evaluation) - returned double| / tolerance, "
+                                     "tolerance = 1e-11 * (1 + sum of |terms|); the lemmas themselves are closed by CoqInterval (i_prec 70) and Qed")
+    cov["interval_by_object"] = dict(collections.Counter(c["object"] for c in iv_list))
     st = _kv(done[-1]) if done else {}
     flags = cres.get("flags", {})
     cov["evaluations"] = int(st.get("evals", 0))
@@ -411,4 +694,5 @@ UNPROVED = [
     "value-only == value+gradient (bit-exact for the scalar code, 1e-12 relative for the threaded ML objectives)",
     "per-sample locality on the implementation (batch of 8 == one-by-one within 16 ulp; 0-1 errors exactly)",
     "floating-point: |library value - exact model| <= 1e-9 * (summed magnitudes) for the algebraic objects",
-    "Q2R transfer between the extracted Qops instance and the Rops instance of the theorems (same Gallina term, two ops records)"]
+    "transcendental objects agree with their real specification: kernel-checked only at the sampled points of each run (interval "
+    "lemmas), not for all inputs; chained_cb3I/II, geometric, kinks, maxquad, maxhilb values have no interval tie"]
